@@ -639,7 +639,12 @@ func (r *Resolver) groupLookup(ctx context.Context, rs *resolveState, req *dns.M
 		})
 
 		if lookupErr != nil {
-			if shared && !leader && middleware.IsRequestLocalResolutionError(lookupErr) {
+			// A capacity refusal belongs to the caller whose closure asked for
+			// the slot. A follower that joined before that check was refused
+			// nothing: it regroups like after the leader's request-local errors
+			// and asks for a slot of its own.
+			if shared && !leader && (middleware.IsRequestLocalResolutionError(lookupErr) ||
+				errors.Is(lookupErr, errResolutionCapacity) || errors.Is(lookupErr, errZoneCapacity)) {
 				if ctxErr := contextutil.EffectiveError(ctx); ctxErr != nil {
 					return nil, ctxErr
 				}
